@@ -3,6 +3,7 @@ package main
 // Loading /repo with go/packages (tag verif) and binding //@ contract blocks to functions.
 
 import (
+	"go/constant"
 	"fmt"
 	"go/ast"
 	"go/parser"
@@ -50,6 +51,7 @@ type LoopContract struct {
 }
 
 type FuncContract struct {
+	deadCount int
 	key      string
 	props    []string
 	requires []*Clause
@@ -93,6 +95,7 @@ type Program struct {
 	funcs  map[string]*FuncInfo // FullName -> decl
 	contracts map[string]*FuncContract
 	globalsAssigned map[types.Object]bool
+	globalConstInit map[types.Object]constant.Value // package variables with a constant initialiser
 	errs   []string
 	bindIssues []bindIssue // contract clauses that no longer bind (reported as cannot-decide, verification continues)
 }
@@ -138,7 +141,7 @@ func loadProgram(repo string, patterns []string, overlay map[string][]byte) (*Pr
 		return nil, err
 	}
 	p := &Program{fset: fset, pkgs: map[string]*packages.Package{}, roots: roots,
-		funcs: map[string]*FuncInfo{}, contracts: map[string]*FuncContract{}, globalsAssigned: map[types.Object]bool{}}
+		funcs: map[string]*FuncInfo{}, contracts: map[string]*FuncContract{}, globalsAssigned: map[types.Object]bool{}, globalConstInit: map[types.Object]constant.Value{}}
 	var nerr int
 	packages.Visit(roots, nil, func(pk *packages.Package) {
 		p.pkgs[pk.PkgPath] = pk
@@ -172,31 +175,67 @@ func loadProgram(repo string, patterns []string, overlay map[string][]byte) (*Pr
 	}
 	// which package-level variables of /repo packages are ever assigned outside their declaration
 	for _, pk := range p.pkgs {
-		if !strings.HasPrefix(pk.PkgPath, repoModule) || pk.TypesInfo == nil {
+		if pk.TypesInfo == nil {
 			continue
 		}
 		for _, f := range pk.Syntax {
-			ast.Inspect(f, func(n ast.Node) bool {
-				switch s := n.(type) {
-				case *ast.AssignStmt:
-					for _, l := range s.Lhs {
-						if id, ok := l.(*ast.Ident); ok {
-							if o := pk.TypesInfo.Uses[id]; o != nil && o.Parent() == pk.Types.Scope() {
-								p.globalsAssigned[o] = true
-							}
+			for _, d := range f.Decls {
+				if gd, ok := d.(*ast.GenDecl); ok && gd.Tok == token.VAR {
+					for _, sp := range gd.Specs {
+						vs, ok := sp.(*ast.ValueSpec)
+						if !ok || len(vs.Values) != len(vs.Names) {
+							continue
 						}
-					}
-				case *ast.UnaryExpr:
-					if s.Op == token.AND {
-						if id, ok := s.X.(*ast.Ident); ok {
-							if o := pk.TypesInfo.Uses[id]; o != nil && o.Parent() == pk.Types.Scope() {
-								p.globalsAssigned[o] = true
+						for i, nm := range vs.Names {
+							if o, ok := pk.TypesInfo.Defs[nm].(*types.Var); ok {
+								if tv, ok := pk.TypesInfo.Types[vs.Values[i]]; ok && tv.Value != nil {
+									p.globalConstInit[o] = tv.Value
+								}
 							}
 						}
 					}
 				}
-				return true
-			})
+				// assignments made by a package's own init() happen before any function under contract runs
+				inInit := false
+				if fd, ok := d.(*ast.FuncDecl); ok && fd.Recv == nil && fd.Name.Name == "init" {
+					inInit = true
+				}
+				mark := func(x ast.Expr, isAddr bool) {
+					var id *ast.Ident
+					switch y := x.(type) {
+					case *ast.Ident:
+						id = y
+					case *ast.SelectorExpr:
+						id = y.Sel
+					}
+					if id == nil {
+						return
+					}
+					o, _ := pk.TypesInfo.Uses[id].(*types.Var)
+					if o == nil || o.Pkg() == nil || o.Parent() != o.Pkg().Scope() {
+						return
+					}
+					if inInit && !isAddr && o.Pkg() == pk.Types {
+						return
+					}
+					p.globalsAssigned[o] = true
+				}
+				ast.Inspect(d, func(n ast.Node) bool {
+					switch s := n.(type) {
+					case *ast.AssignStmt:
+						for _, l := range s.Lhs {
+							mark(l, false)
+						}
+					case *ast.IncDecStmt:
+						mark(s.X, false)
+					case *ast.UnaryExpr:
+						if s.Op == token.AND {
+							mark(s.X, true)
+						}
+					}
+					return true
+				})
+			}
 		}
 	}
 	return p, nil
@@ -245,6 +284,15 @@ func installUniverse() {
 			types.NewTuple(types.NewVar(token.NoPos, nil, "name", types.Typ[types.String]), types.NewVar(token.NoPos, nil, "args", types.NewSlice(anyT))),
 			types.NewTuple(types.NewVar(token.NoPos, nil, "", tp)), true)
 		types.Universe.Insert(types.NewFunc(token.NoPos, nil, "ghostOf", sig))
+	}
+	// isType[T any](x any) bool : the dynamic type of interface value x is exactly T
+	{
+		tn := types.NewTypeName(token.NoPos, nil, "T", nil)
+		tp := types.NewTypeParam(tn, anyT)
+		sig := types.NewSignatureType(nil, nil, []*types.TypeParam{tp},
+			types.NewTuple(types.NewVar(token.NoPos, nil, "x", anyT)),
+			types.NewTuple(types.NewVar(token.NoPos, nil, "", types.Typ[types.Bool])), false)
+		types.Universe.Insert(types.NewFunc(token.NoPos, nil, "isType", sig))
 	}
 	// cur[T any](x T) T : inside old(...), evaluate x in the current state
 	{
@@ -301,7 +349,7 @@ func installUniverse() {
 
 var clauseKinds = map[string]bool{"guard": true, "callback": true, "step": true, "requires": true, "ensures": true, "invariant": true, "decreases": true,
 	"modifies": true, "props": true, "trusted": true, "pure": true, "inline": true, "unroll": true, "lemma": true,
-	"assume": true, "nopanic": true, "heapframe": true}
+	"assume": true, "nopanic": true, "dead": true, "heapframe": true}
 
 var headRe = regexp.MustCompile(`^func\s+(.+)$`)
 var clauseRe = regexp.MustCompile(`^(?:(loop|closure|if)#(\d+)\s+)?([a-z]+)(?:\[([A-Za-z0-9, ]+)\])?(?:\s+(.*))?$`)
@@ -1215,6 +1263,16 @@ func (p *Program) fillContract(fc *FuncContract, clauses []*rawClause, body *ast
 			fc.lemma = true
 		case "nopanic":
 			fc.nopanic = rc.text != "off"
+		case "dead":
+			// dead returns n: exactly n return statements are unreachable under the callee contracts (defensive
+			// error checks after calls that cannot fail there); the count is checked, not ordinals, so that adding
+			// or reordering returns does not re-target the clause
+			var k int
+			if _, err := fmt.Sscanf(strings.TrimSpace(rc.text), "returns %d", &k); err != nil {
+				p.bindIssues = append(p.bindIssues, bindIssue{fc.key, "dead clause: want `dead returns <n>`, got " + rc.text})
+				continue
+			}
+			fc.deadCount = k
 		case "requires", "ensures", "assume":
 			pos := body.Rbrace
 			cl, err := p.checkClause(fc, rc, rc.where, pos)
